@@ -38,8 +38,8 @@ PROPS_T = {
                 {"name": "faults", "runs": 20000, "cfg": {"faults": True}, "faults": True, "chunk": 100},
             ],
             "thorough": [
-                {"name": "nofault", "runs": 800000, "cfg": {"faults": False}, "faults": False, "chunk": 500},
-                {"name": "faults", "runs": 150000, "cfg": {"faults": True}, "faults": True, "chunk": 500},
+                {"name": "nofault", "runs": 1200000, "cfg": {"faults": False}, "faults": False, "chunk": 500},
+                {"name": "faults", "runs": 300000, "cfg": {"faults": True}, "faults": True, "chunk": 500},
             ],
         },
     },
@@ -60,8 +60,8 @@ PROPS_T = {
                 {"name": "faults", "runs": 40000, "cfg": {"faults": True}, "faults": True, "chunk": 100},
             ],
             "thorough": [
-                {"name": "nofault", "runs": 450000, "cfg": {"faults": False}, "faults": False, "chunk": 500},
-                {"name": "faults", "runs": 400000, "cfg": {"faults": True}, "faults": True, "chunk": 500},
+                {"name": "nofault", "runs": 650000, "cfg": {"faults": False}, "faults": False, "chunk": 500},
+                {"name": "faults", "runs": 550000, "cfg": {"faults": True}, "faults": True, "chunk": 500},
             ],
         },
     },
